@@ -7,6 +7,7 @@ cd /verif; mkdir -p build/thorough
 for i in "$@"; do
   t0=$(date +%s)
   VERIF_TIER=thorough python3 verif.py check $i --tier thorough > build/thorough/$i.out 2> build/thorough/$i.err; rc=$?
+  [ $rc -eq 0 ] && mkdir -p evidence/thorough && cp evidence/$i.json evidence/thorough/$i.json  # kept next to the quick-tier evidence
   echo "$i rc=$rc $(( $(date +%s) - t0 ))s $(grep -a "^$i tier" build/thorough/$i.out | cut -c1-160)"
   grep -a "VIOLATION\|unlisted" build/thorough/$i.out | head -8 | cut -c1-300
 done
